@@ -427,8 +427,8 @@ long long c_accumulate(long long nrows, long long ncols,
                 break;
             }
 
-            /* Get accumulated value */
-            accvalue = to_accumulate[idxdown[0]];
+            /* Get accumulated value (contribution of the start cell) */
+            accvalue = to_accumulate[i];
 
             /* Increase flow accumulation at downstream cell */
             accumulation[idxdown[0]] += accvalue;
